@@ -262,6 +262,8 @@ class Interp:
         self.abstract_returns = []
         self.path_ambient = []  # process-global sources of nondeterminism read on this path
         self.output_log = []  # what the program handed to output / serialisation functions on this path
+        self.path_cache = {}  # per-path memo of deterministic library stubs
+        self.ghost_jitter = []
         for ax in getattr(self, "axioms", []):
             self.solver.add(ax)
 
@@ -415,6 +417,15 @@ class Interp:
             return t != 0
         raise Unsupported("cannot convert %s to %s" % (k, kind))
 
+    def mknan(self, isnan, val):
+        """possibly-NaN float; a flag that simplifies to False gives the plain value back"""
+        if isinstance(isnan, bool):
+            return NanReal(True, val) if isnan else val
+        f = z3.simplify(isnan)
+        if z3.is_false(f):
+            return val
+        return NanReal(f, val)
+
     def mk(self, t, k):
         """z3 term -> value, folding numerals back to concrete python values"""
         t = z3.simplify(t)
@@ -523,7 +534,7 @@ class Interp:
             bn = b.isnan if isinstance(b, NanReal) else False
             av = a.val if isinstance(a, NanReal) else a
             bv = b.val if isinstance(b, NanReal) else b
-            return NanReal(self.disj([an, bn]), self.binop(op, av, bv, node))
+            return self.mknan(self.disj([an, bn]), self.binop(op, av, bv, node))
         ka, kb = self.kind_of(a), self.kind_of(b)
         # sequences
         if isinstance(op, ast.Add):
@@ -669,6 +680,8 @@ class Interp:
                 return not t
             return self.mk(z3.Not(t), "bool")
         a = self.force(a, node)
+        if isinstance(a, NanReal) and isinstance(op, (ast.USub, ast.UAdd)):
+            return self.mknan(a.isnan, self.unaryop(op, a.val, node))
         k = self.kind_of(a)
         if isinstance(op, ast.USub):
             if not isinstance(a, Sym):
@@ -985,7 +998,7 @@ class Interp:
                 bv = b.val if isinstance(b, NanReal) else b
                 anz = z3.BoolVal(an) if isinstance(an, bool) else an
                 bnz = z3.BoolVal(bn) if isinstance(bn, bool) else bn
-                return NanReal(z3.simplify(z3.If(c, anz, bnz)), self.ite(c, av, bv, node))
+                return self.mknan(z3.simplify(z3.If(c, anz, bnz)), self.ite(c, av, bv, node))
         ka, kb = self.kind_of(a), self.kind_of(b)
         if ka is not None and kb is not None:
             if ka == kb:
